@@ -5,11 +5,16 @@ from ht_c01 import P
 AFTERS = ["Nothing", "PushOrig", "PushClone", "RemoveOrig", "RemoveClone", "MutateOrig", "MutateClone", "ClearOrig", "ClearClone"]
 
 
-def clone(after, tr, b, elem, L=3, tier="quick", slack=1):
-    name = "c08_clone_%s__%s_%s_%s__L%d" % (after.lower(), tr, b, elem, L)
-    call = "c08::clone_h::<%s, %s, %s>(%s, c08::After::%s)" % (TR[tr], bk(b, elem, L + slack), elem, P(L + slack, "s%d" % L, "s%d" % L), after)
+def clone(after, tr, b, elem, L=3, tier="quick", slack=1, ln=None):
+    """resizable backends: the clone allocates `len` elements, so len is concrete per query (a symbolic
+    allocation size makes CBMC's array theory explode); fixed-capacity backends: len symbolic."""
+    if ln is None:
+        ln = ("s%d" % L) if b in ("stack", "stackn") else L
+    lt = ln if isinstance(ln, str) else "f%d" % ln
+    name = "c08_clone_%s__%s_%s_%s__L%d_l%s" % (after.lower(), tr, b, elem, L, lt)
+    call = "c08::clone_h::<%s, %s, %s>(%s, c08::After::%s)" % (TR[tr], bk(b, elem, L + slack), elem, P(L + slack, ln, "s%d" % L), after)
     props = ["C08"] + (["C11"] if b in ("stack", "stackn") else []) + (["C05"] if b == "reloc" else [])
-    H(name, call, props, tier=tier, unwind=unwind_for(elem, L + 2), dims=dict(L=L, cap=L + slack, after=after, elem=elem, backend=b, traits=tr, shape_symbolic=True), role="c08_clone")
+    H(name, call, props, tier=tier, unwind=unwind_for(elem, L + 2), dims=dict(L=L, cap=L + slack, len=ln, after=after, elem=elem, backend=b, traits=tr, shape_symbolic=isinstance(ln, str)), role="c08_clone")
 
 
 def clone_empty(same, tr, b, x, elem, L=2, tier="quick"):
@@ -32,6 +37,8 @@ LUSE = ["Push", "Insert", "Splice", "Downcast"]
 
 def define():
     clone("Nothing", "clone", "heap", "B3D")
+    clone("Nothing", "clone", "heap", "B3D", ln=0)
+    clone("RemoveClone", "clone", "heap", "B3D", ln=1, tier="rot2")
     clone("Nothing", "clone", "stack", "W8D", L=2)
     clone("PushClone", "clone", "heap", "W8D", L=2)
     clone("RemoveOrig", "clone", "stack", "B3D", L=2)
@@ -61,7 +68,11 @@ def define():
                 if elem == "Z0D" and b in ("stack", "stackn"):
                     continue
                 for a in AFTERS:
-                    clone(a, tr, b, elem, L=3, tier="thorough" if tr == "clone" else "rot64")
+                    if b in ("stack", "stackn"):
+                        clone(a, tr, b, elem, L=3, tier="thorough" if tr == "clone" else "rot64")
+                    else:
+                        for n in (0, 1, 2, 3):
+                            clone(a, tr, b, elem, L=3, ln=n, tier="thorough" if (tr == "clone" and elem in ("B3D", "W8")) else "rot128")
     for b in ("heap", "stack", "reloc", "stackn"):
         for x in ("heap", "stack", "reloc", "stackn"):
             clone_empty(False, "clone", b, x, "W8D", tier="thorough")
